@@ -586,3 +586,177 @@ Proof.
     simpl. rewrite any_own_existsb. rewrite Hk. simpl. unfold ttr_leaf.
     destruct (get_access_policies o (TNode i u a mat ps kids)); now rewrite rw_get_set_same.
 Qed.
+
+(* ------------------------------------------------------------------ *)
+(* registration is monotone; children get registered                   *)
+(* ------------------------------------------------------------------ *)
+Section TnodeInd.
+  Variable P : tnode -> Prop.
+  Hypothesis H : forall i u a m ps kids, Forall P kids -> P (TNode i u a m ps kids).
+  Fixpoint tnode_ind' (n : tnode) : P n :=
+    match n with
+    | TNode i u a m ps kids =>
+        H i u a m ps kids
+          ((fix all (l : list tnode) : Forall P l :=
+              match l with
+              | [] => Forall_nil P
+              | k :: r => Forall_cons k (tnode_ind' k) (all r)
+              end) kids)
+    end.
+End TnodeInd.
+
+Definition present (m : rws) (k : rkey) : Prop := rw_get m k <> None.
+
+Lemma key_eqb_true a b : key_eqb a b = true -> a = b.
+Proof.
+  destruct a as [a1 a2], b as [b1 b2]. unfold key_eqb. simpl. intros H.
+  apply andb_true_iff in H. destruct H as [H1 H2].
+  apply N.eqb_eq in H1. apply eqb_prop in H2. now subst.
+Qed.
+
+Lemma rw_set_mono m k' v k : present m k -> present (rw_set m k' v) k.
+Proof.
+  unfold present. induction m as [|[k0 v0] r IH]; simpl; [congruence|].
+  destruct (key_eqb k0 k) eqn:E.
+  - intros _. destruct (key_eqb k0 k') eqn:E'; simpl; rewrite E; discriminate.
+  - intros Hp. destruct (key_eqb k0 k') eqn:E'; simpl; rewrite E; auto.
+Qed.
+
+Lemma rw_set_present m k v : present (rw_set m k v) k.
+Proof. unfold present. rewrite rw_get_set_same. discriminate. Qed.
+
+Lemma ttr_leaf_mono o n skip m k : present m k -> present (ttr_leaf o n skip m) k.
+Proof. unfold ttr_leaf. destruct (get_access_policies o n); apply rw_set_mono. Qed.
+
+Lemma new_set_leaf_mono o sup n skip m k : present m k -> present (new_set_leaf o sup n skip m) k.
+Proof.
+  unfold new_set_leaf. destruct (should_ignore_rewrite sup n); auto.
+  destruct (absent m (t_id n, skip) && o_apply_query_rewrites o); auto. apply ttr_leaf_mono.
+Qed.
+
+Lemma full_visit_mono o sup : forall n,
+  (forall m k, present m k -> present (full o sup n m) k) /\
+  (forall m k, present m k -> present (visit o sup n m) k).
+Proof.
+  induction n using tnode_ind'. rename H into IH. rewrite Forall_forall in IH. split.
+  - intros m0 k Hp. simpl.
+    match goal with |- context [if negb ?c then _ else _] => destruct c end; simpl.
+    2:{ now apply (ttr_leaf_mono o (TNode i u a m ps kids)). }
+    apply rw_set_mono.
+    match goal with |- context [if ?c then _ else _] => destruct c end.
+    + (* overlap: visit each kid *)
+      assert (G : forall l acc, (forall x, In x l -> In x kids) -> present acc k ->
+                present ((fix each (l : list tnode) (acc : rws) : rws :=
+                            match l with [] => acc | k0 :: r => each r (visit o sup k0 acc) end) l acc) k).
+      { induction l as [|x r IHl]; intros acc Hin Ha; auto.
+        apply IHl; [intros; apply Hin; now right|].
+        apply (proj2 (IH x (Hin x (or_introl eq_refl)))). exact Ha. }
+      apply G; auto.
+      destruct a; [now apply rw_set_mono|]. apply new_set_leaf_mono. now apply rw_set_mono.
+    + assert (G : forall l acc, (forall x, In x l -> In x kids) -> present acc k ->
+                present ((fix each (l : list tnode) (acc : rws) : rws :=
+                   match l with
+                   | [] => acc
+                   | k0 :: r =>
+                       each r (if t_material k0 then
+                                 (if should_ignore_rewrite sup k0 then acc
+                                  else if absent acc (t_id k0, false) && o_apply_query_rewrites o
+                                       then full o sup k0 acc else acc)
+                               else acc)
+                   end) l acc) k).
+      { induction l as [|x r IHl]; intros acc Hin Ha; auto.
+        apply IHl; [intros; apply Hin; now right|].
+        destruct (t_material x); auto. destruct (should_ignore_rewrite sup x); auto.
+        destruct (absent acc (t_id x, false) && o_apply_query_rewrites o); auto.
+        apply (proj1 (IH x (Hin x (or_introl eq_refl)))). exact Ha. }
+      apply G; auto.
+      destruct a; [now apply rw_set_mono|]. apply new_set_leaf_mono. now apply rw_set_mono.
+  - intros m0 k Hp. simpl.
+    assert (G : forall l acc, (forall x, In x l -> In x kids) -> present acc k ->
+              present ((fix each (l : list tnode) (acc : rws) : rws :=
+         match l with
+         | [] => acc
+         | d :: r =>
+             let acc1 :=
+               if t_material d && negb (should_ignore_rewrite sup d) then
+                 let b1 :=
+                   if absent acc (t_id d, true) && o_apply_query_rewrites o then
+                     match get_access_policies o d with
+                     | [] => rw_set acc (t_id d, true) RwNone
+                     | _ :: _ =>
+                         let p := rw_set acc (t_id d, true) RwNone in
+                         let q := if absent p (t_id d, false) then full o sup d p else p in
+                         rw_set q (t_id d, true) RwFilter
+                     end
+                   else acc in
+                 if absent b1 (t_id d, false) && o_apply_query_rewrites o
+                 then full o sup d b1 else b1
+               else acc in
+             each r (visit o sup d acc1)
+         end) l acc) k).
+    { induction l as [|x r IHl]; intros acc Hin Ha; auto.
+      apply IHl; [intros; apply Hin; now right|].
+      destruct (IH x (Hin x (or_introl eq_refl))) as [Fx Vx].
+      apply Vx. cbv zeta.
+      destruct (t_material x && negb (should_ignore_rewrite sup x)); auto.
+      match goal with |- present (if absent ?b _ && _ then _ else _) _ =>
+        assert (Hb : present b k) end.
+      { destruct (absent acc (t_id x, true) && o_apply_query_rewrites o); auto.
+        destruct (get_access_policies o x); [now apply rw_set_mono|].
+        apply rw_set_mono.
+        destruct (absent (rw_set acc (t_id x, true) RwNone) (t_id x, false)).
+        - apply Fx. now apply rw_set_mono.
+        - now apply rw_set_mono. }
+      match goal with |- present (if ?c then _ else _) _ => destruct c end; auto. }
+    apply G; auto.
+Qed.
+
+(* Outside policy bodies, with a fresh key, when the children do not overlap: every concrete
+   child of a type whose children carry own policies gets its own (child, false) key. *)
+Lemma reg_children o n m k :
+  o_apply_query_rewrites o = true ->
+  rw_get m (t_id n, false) = None ->
+  existsb (has_own_policies o (t_id n)) (t_kids n) = true ->
+  has_dup (map t_id (all_descs (t_kids n))) = false ->
+  In k (t_kids n) -> t_material k = true ->
+  present (fst (new_set o [] n false false m)) (t_id k, false).
+Proof.
+  intros Ho Eg Hc Hov Hin Hm. unfold new_set, absent. simpl. rewrite Eg, Ho. simpl.
+  unfold try_type_rewrite. destruct n as [i u a mat ps kids]. simpl t_id in *. simpl t_kids in *.
+  simpl. rewrite any_own_existsb, Hc, Hov. simpl.
+  apply rw_set_mono.
+  match goal with |- present (_ kids ?m2) _ => generalize m2 end.
+  assert (G : forall l acc, In k l ->
+            present ((fix each (l : list tnode) (acc : rws) : rws :=
+               match l with
+               | [] => acc
+               | k0 :: r =>
+                   each r (if t_material k0 then
+                             (if should_ignore_rewrite [] k0 then acc
+                              else if absent acc (t_id k0, false) && o_apply_query_rewrites o
+                                   then full o [] k0 acc else acc)
+                           else acc)
+               end) l acc) (t_id k, false)).
+  { assert (M : forall l acc, present acc (t_id k, false) ->
+            present ((fix each (l : list tnode) (acc : rws) : rws :=
+               match l with
+               | [] => acc
+               | k0 :: r =>
+                   each r (if t_material k0 then
+                             (if should_ignore_rewrite [] k0 then acc
+                              else if absent acc (t_id k0, false) && o_apply_query_rewrites o
+                                   then full o [] k0 acc else acc)
+                           else acc)
+               end) l acc) (t_id k, false)).
+    { induction l as [|x r IHl]; intros acc Ha; auto. apply IHl.
+      destruct (t_material x); auto. simpl.
+      destruct (absent acc (t_id x, false) && o_apply_query_rewrites o); auto.
+      now apply (proj1 (full_visit_mono o [] x)). }
+    induction l as [|x r IHl]; intros acc Hl; [destruct Hl|].
+    destruct Hl as [->|Hl]; [|now apply IHl].
+    apply M. rewrite Hm. simpl. rewrite Ho. unfold absent.
+    destruct (rw_get acc (t_id k, false)) eqn:E; simpl.
+    - unfold present. rewrite E. discriminate.
+    - apply full_key. }
+  intros m2. now apply G.
+Qed.
